@@ -165,6 +165,95 @@ func checkC07(p *Prog, r *Report) {
 	ruleGuardTable(p, r, "R07.5", "C07")
 	r.rule("R-M", "Mark discipline (Cisco): needed / ready / toDelete decide which device objects are kept and which become deletion candidates; every store into such a mark in package cisco lies at a function+site whose controlling conditions are audited rows of tables/guards.tsv (compared by R07.5).")
 	ruleMarkDiscipline(p, r, "R-M", "C07", "cisco", []string{"cmd.needed", "cmd.ready", "cmd.toDelete"}, 18)
+	ruleListMapsAccumulate(p, r)
 	r.Trusted = []string{"go/ssa, call graph", "the audited guard sets in tables/guards.tsv are the intended ones (each row carries its reason)"}
 	r.NotDec = "whole-device frame condition for arbitrary unmanaged content; value-dependent marking (which objects an unknown interface reaches); lines the parser does not model"
+}
+
+// ruleListMapsAccumulate: R07.6.
+func ruleListMapsAccumulate(p *Prog, r *Report) {
+	r.rule("R07.6", "Maps from a name to a list of commands are filled by accumulation: inside a loop, a store m[k] = v into a map[string][]*cmd in package cisco must extend the entry already stored under k (v = append(m[k], ...)), be keyed by the loop's own range key, or be guarded by a test that the entry is missing. A fresh list stored under a key that an earlier iteration may have used (an interface with an `in` and an `out` access-group) silently drops the earlier commands — for the interface protection map this means their ACLs are not marked needed and get deleted.")
+	audited := map[string]string{}
+	for _, row := range readTable("listmap_audit.tsv", 3) {
+		audited[row[0]+"|"+row[1]] = row[2]
+	}
+	n := 0
+	for _, s := range lookupStores(p) {
+		blk := s.In.Block()
+		inLoop := false
+		var loopBody map[*ssa.BasicBlock]bool
+		for _, h := range s.Fn.Blocks {
+			if body := naturalLoopBody(h); body != nil && body[blk] {
+				inLoop = true
+				if loopBody == nil || len(body) < len(loopBody) {
+					loopBody = body
+				}
+			}
+		}
+		if !inLoop {
+			continue
+		}
+		n++
+		name := fnDisplay(s.Fn)
+		ok := false
+		why := ""
+		// (a) extends the entry under the same key
+		var fromSame func(v ssa.Value, d int) bool
+		fromSame = func(v ssa.Value, d int) bool {
+			if d > 5 {
+				return false
+			}
+			switch x := v.(type) {
+			case *ssa.Lookup:
+				return (sameSlice(x.X, s.In.Map) || descValue(x.X, 0) == descValue(s.In.Map, 0)) && (x.Index == s.In.Key || descValue(x.Index, 0) == descValue(s.In.Key, 0))
+			case *ssa.Extract:
+				return fromSame(x.Tuple, d+1)
+			case *ssa.Call:
+				if b, isB := x.Common().Value.(*ssa.Builtin); isB && b.Name() == "append" {
+					for _, a := range x.Common().Args {
+						if fromSame(a, d+1) {
+							return true
+						}
+					}
+					return false
+				}
+			case *ssa.Phi:
+				for _, e := range x.Edges {
+					if fromSame(e, d+1) {
+						return true
+					}
+				}
+			case *ssa.Slice:
+				return fromSame(x.X, d+1)
+			}
+			return false
+		}
+		if fromSame(s.In.Value, 0) {
+			ok, why = true, "extends the entry stored under the same key"
+		}
+		// (b) keyed by the range key of a map range (keys are unique)
+		if !ok {
+			for _, rt := range keyOrigins(s.In.Key) {
+				if _, isMap := rt.Type().Underlying().(*types.Map); isMap {
+					ok, why = true, "keyed by the key of a map being ranged over (unique)"
+				}
+			}
+		}
+		// (c) guarded by a missing-entry test of the same map
+		if !ok {
+			for _, g := range guardSet(s.In) {
+				if strings.Contains(g, "nil == ") || strings.Contains(g, " == nil") || strings.HasPrefix(g, "!ok(") {
+					ok, why = true, "guarded by "+g
+				}
+			}
+		}
+		if !ok {
+			if reason, isAud := audited[name+"|"+s.Class]; isAud {
+				ok, why = true, "audited: "+reason
+			}
+		}
+		r.add("R07.6", "list-map-accumulates|"+name+"|"+s.Class, p.ipos(s.In), "store into a name->commands map inside a loop "+why, ok,
+			"a fresh list overwrites what an earlier iteration stored under the same key: the earlier commands are lost (for the interface map: not protected, hence deleted)")
+	}
+	r.floor("R07.6", "stores into name->commands maps inside loops", n, 3)
 }
